@@ -569,3 +569,118 @@ Section DestOutProofs.
     - apply Forall_app in Hp. apply Hp.
   Qed.
 End DestOutProofs.
+
+(* ================================================================== a destination that keeps up gets everything *)
+
+Lemma upd_nth_same {A} (f : A -> A) l : forall i x, nth_error l i = Some x -> nth_error (upd i f l) i = Some (f x).
+Proof.
+  induction l as [|y r IH]; intros [|i] x H; cbn in *; try discriminate.
+  - inversion H; reflexivity.
+  - apply IH; exact H.
+Qed.
+
+Lemma upd_nth_other {A} (f : A -> A) l : forall i j, i <> j -> nth_error (upd i f l) j = nth_error l j.
+Proof.
+  induction l as [|y r IH]; intros [|i] [|j] H; cbn; try reflexivity; try congruence.
+  apply IH. congruence.
+Qed.
+
+(* the schedule seen from consumer c: writes, hand-offs each followed at once by c looking at what it got,
+   and anything the OTHER consumers do *)
+Inductive blk :=
+| BW (chunk : bytes)
+| BF
+| BM (m : bytes)
+| BO (e : ev).
+
+Definition others (c : nat) (e : ev) : bool :=
+  match e with
+  | Busy k | Take k | Consume k => negb (Nat.eqb k c)
+  | _ => false
+  end.
+
+Definition blk_ok (c : nat) (b : blk) : bool := match b with BO e => others c e | _ => true end.
+
+Definition expand (c : nat) (b : blk) : list ev :=
+  match b with
+  | BW ch => [Write ch]
+  | BF => [Flush; Consume c]
+  | BM m => [WsMsg m; Consume c]
+  | BO e => [e]
+  end.
+
+Definition caught_up (c : nat) (s : st) : Prop :=
+  exists cs, nth_error (cons s) c = Some cs /\ 1 <= cap cs /\ busy cs = false /\ chanq cs = [] /\ hand cs = [] /\
+             got cs = handed s.
+
+Lemma run_app byref maxf s a b : run byref maxf s (a ++ b) = run byref maxf (run byref maxf s a) b.
+Proof. unfold run. apply fold_left_app. Qed.
+
+Lemma caught_up_block maxf c s b : blk_ok c b = true -> caught_up c s -> caught_up c (run false maxf s (expand c b)).
+Proof.
+  intros Hb [cs [Hn [Hcap [Hbusy [Hq [Hh Hg]]]]]]. unfold caught_up, run.
+  assert (Hoff : forall f, offer (Val f, f) cs = mkcons (cap cs) false [(Val f, f)] [] (got cs) (want cs)).
+  { intros f. unfold offer. rewrite Hbusy, Hq, Hh. cbn [length app]. destruct (cap cs); [lia|reflexivity]. }
+  destruct b as [ch| |m|e]; cbn [expand fold_left].
+  - cbn [step cons handed]. exists cs. repeat split; assumption.
+  - cbn [step]. destruct (firstn maxf (acc s)) as [|x fr] eqn:F.
+    + cbn [step cons handed fbuf]. exists cs. split; [|repeat split; assumption].
+      rewrite (upd_nth_same _ _ _ _ Hn). unfold consume1. rewrite Hh, Hq. destruct cs; reflexivity.
+    + unfold broadcast. cbn [step cons handed fbuf].
+      eexists. split; [apply upd_nth_same; apply map_nth_error; exact Hn|].
+      rewrite Hoff. unfold consume1. cbn [hand chanq cap busy got deref]. repeat split; try assumption. rewrite Hg. reflexivity.
+  - cbn [step cons handed fbuf].
+    eexists. split; [apply upd_nth_same; apply map_nth_error; exact Hn|].
+    rewrite Hoff. unfold consume1. cbn [hand chanq cap busy got deref]. repeat split; try assumption. rewrite Hg. reflexivity.
+  - cbn [blk_ok] in Hb. destruct e as [ch| |m|k|k|k]; cbn [others] in Hb; try discriminate;
+      apply negb_true_iff, Nat.eqb_neq in Hb; cbn [step cons handed]; exists cs;
+      (split; [rewrite upd_nth_other; [exact Hn|exact Hb]|repeat split; assumption]).
+Qed.
+
+(* a destination whose channel holds at least one message and that looks at every message as soon as it is
+   handed on misses nothing: what it has read is everything that was handed on, in order *)
+Lemma keeping_up_gets_everything maxf caps c k bs :
+  nth_error caps c = Some k -> 1 <= k -> forallb (blk_ok c) bs = true ->
+  let s := run false maxf (init caps) (concat (map (expand c) bs)) in
+  exists cs, nth_error (cons s) c = Some cs /\ got cs = handed s.
+Proof.
+  intros Hn Hk Hbs s.
+  assert (H : caught_up c s).
+  { subst s. assert (H0 : caught_up c (init caps)).
+    { exists (mkcons k false [] [] [] []). cbn [init cons handed]. split.
+      - apply (map_nth_error (fun k0 => mkcons k0 false [] [] [] []) c caps Hn).
+      - repeat split; try reflexivity; exact Hk. }
+    revert H0. generalize (init caps) as s0. induction bs as [|b r IH]; intros s0 H0; [exact H0|].
+    cbn [forallb] in Hbs. apply andb_true_iff in Hbs. destruct Hbs as [Hb Hr].
+    cbn [map concat]. rewrite run_app. apply (IH Hr). apply caught_up_block; assumption. }
+  destruct H as [cs [H1 [_ [_ [_ [_ H6]]]]]]. exists cs. split; assumption.
+Qed.
+
+(* ================================================================== what a consumer reads is a slice of the input *)
+
+Lemma slices_at_in inp fs : forall ds pos f,
+  slices_at inp pos fs ds -> length fs = length ds -> In f fs ->
+  exists a, pos <= a /\ firstn (length f) (skipn a inp) = f /\ a + length f <= length inp.
+Proof.
+  induction fs as [|x fr IH]; intros [|d dr] pos f Hs Hl Hin; cbn in Hl; try discriminate; [destruct Hin|].
+  cbn [slices_at] in Hs. destruct Hs as [H1 [H2 H3]]. destruct Hin as [->|Hin].
+  - exists pos. split; [apply le_n|split; assumption].
+  - destruct (IH dr _ f H3 (eq_add_S _ _ Hl) Hin) as [a [Ha Hb]]. exists a. split; [lia|exact Hb].
+Qed.
+
+Lemma sub_in {A} (a b : list A) x : sub a b -> In x a -> In x b.
+Proof. induction 1; intros Hin; [destruct Hin| |right; auto]. destruct Hin as [->|Hin]; [left; reflexivity|right; auto]. Qed.
+
+(* repaired code, POST /ts and tcpconnect: every message any consumer reads, however late, is input[a, a+n) *)
+Lemma reads_are_slices_of_input maxf caps evs :
+  0 < maxf -> forallb (fun e => negb (is_ws_ev e)) evs = true ->
+  Forall (fun c => Forall (fun r => exists a, firstn (length r) (skipn a (input_of evs)) = r /\ a + length r <= length (input_of evs)) (got c))
+         (cons (run false maxf (init caps) evs)).
+Proof.
+  intros Hm Hws.
+  destruct (slices_of_input false maxf caps evs Hm Hws) as [Hs [Hf _]].
+  pose proof (reads_are_handed_frames maxf caps evs) as Hr. cbv zeta in Hr, Hs, Hf.
+  eapply Forall_impl; [|exact Hr]. intros c Hc. apply Forall_forall. intros r Hin.
+  destruct (slices_at_in _ _ _ _ r Hs (Forall2_length _ _ _ Hf) (sub_in _ _ _ Hc Hin)) as [a [_ Ha]].
+  exists a. exact Ha.
+Qed.
